@@ -216,3 +216,48 @@ Theorem C10_send_lock_progress : forall s, LInv s ->
   end.
 Proof. exact lock_progress. Qed.
 Print Assumptions C10_send_lock_progress.
+
+(* ---- arm, THEN hand to the driver: events during the (blocking) driver call ---- *)
+(* The pattern and its armed timer exist from the moment the call gets the lock, i.e. during the whole driver call. *)
+Theorem C10_timer_armed_before_driver_call : forall s i rid hdr data x exp tmo po sess,
+  holder s = None -> nth_error (calls s) i = Some (AUser rid hdr data (x :: exp) tmo, Wait, po) ->
+  link (base s) = Some sess -> nr (base s) = true -> (length data <= 30)%nat ->
+  let pat := hdr_attr hdr :: x :: exp in
+  let s1 := fst (lstep WithFinally s (LAcquire i)) in
+  holder s1 = Some i /\
+  lookup pat (pats (base s1)) = Some (length (timers (base s))) /\
+  nth_error (timers (base s1)) (length (timers (base s))) =
+    Some (mkTimer rid (hdr_attr hdr :: data) pat tmo (now (base s) + tmo) Armed sess).
+Proof. exact acquire_arms_before_driver. Qed.
+Print Assumptions C10_timer_armed_before_driver_call.
+
+(* Whatever does not need the lock (arrivals, link error, close, open, time, timer wake-ups) is, while a sender sits in
+   the driver, an ordinary step of the plain model on that state; the lock and the calls are untouched. *)
+Theorem C10_events_during_driver_call_are_model_steps : forall lv s ev,
+  match ev with Send _ _ _ _ _ | RunT _ => False | _ => True end ->
+  let s' := fst (lstep lv s (LBase ev)) in
+  base s' = fst (step Fixed (base s) ev) /\ holder s' = holder s /\ calls s' = calls s /\
+  snd (lstep lv s (LBase ev)) = snd (step Fixed (base s) ev).
+Proof. exact base_event_during_driver_call. Qed.
+Print Assumptions C10_events_during_driver_call_are_model_steps.
+
+(* A reply arriving DURING the driver call cancels the request (its pattern is forgotten, its timer cancelled) although
+   send_packet has not returned yet: the answered request is never retransmitted. *)
+Theorem C10_reply_during_driver_call_cancels : forall lv s hdr data best i t,
+  Inv (base s) -> link (base s) <> None ->
+  best = longest_match (hdr_attr hdr :: data) (pats (base s)) [] -> best <> [] ->
+  lookup best (pats (base s)) = Some i -> nth_error (timers (base s)) i = Some t ->
+  let s' := fst (lstep lv s (LBase (Recv hdr data))) in
+  lookup best (pats (base s')) = None /\ nth_error (timers (base s')) i = Some (cancel1 t) /\ holder s' = holder s.
+Proof. exact reply_during_driver_call_cancels. Qed.
+Print Assumptions C10_reply_during_driver_call_cancels.
+
+(* A link error reported DURING the driver call leaves no timer behind: nothing pending, no armed timer — nothing of this
+   session can fire in the next one. *)
+Theorem C10_link_error_during_driver_call_leaves_no_timer : forall lv s,
+  Inv (base s) -> link (base s) <> None ->
+  let s' := fst (lstep lv s (LBase LinkErr)) in
+  pats (base s') = [] /\ link (base s') = None /\
+  (forall j t, nth_error (timers (base s')) j = Some t -> t_status t <> Armed) /\ holder s' = holder s.
+Proof. exact link_error_during_driver_call_leaves_no_timer. Qed.
+Print Assumptions C10_link_error_during_driver_call_leaves_no_timer.
